@@ -301,6 +301,13 @@ def discharge(prog, body, kind, bi, t, bounds):
                         holds_eq = (g[1] == 'Eq' and k in (1, 'otherwise')) or (g[1] == 'Ne' and k == 0)
                         if holds_eq:
                             return 'length == %d on the dominating edge' % n
+                # ... or whose length is n on every path from the last test of it (`match v.len() { 5 => v.push(..), 6 => {}, _ => return Err }`)
+                conv = [(cbi, ct) for cbi, ct in body.calls() if ct['dest']['local'] == (t['args'][0].get('place') or {}).get('local') and not ct['dest']['proj']]
+                if len(conv) == 1:
+                    vec = util._ref_root(body, conv[0][1]['args'][0])
+                    ls = util.lengths_reaching(body, vec, conv[0][0]) if vec is not None else None
+                    if ls is not None and ls == {n}:
+                        return 'length == %d on every path from the test of the length (pushes counted)' % n
         if isinstance(recv, tuple) and recv[0] == 'call' and cname(recv[1]) == 'Regex::new':
             a = strip(recv[2])
             if isinstance(a, tuple) and a[0] == 'const' and a[1] == 'str':
